@@ -160,7 +160,7 @@ impl Prop for C17 {
             };
             // inputs that end inside a token: an escape, a string, a comment, a function (added after a mutation of the
             // string scanner's "backslash at the end" case survived)
-            let s = if r.p(12) { format!("{s}{}", r.pick(&["\"a\\", "'\\", "\"a\\\n", "p{content:\"x\\", "\\", "/*", "/* *", "url(", "p{color:rgb(", "\"", "'a", "@x \"\\", "p{color:red;content:'\\", ";color:#00ff00;content:'\\", ";color:#00ff00;x:\"\\", "color:#0000ff;quotes:'a\\"])) } else { s };
+            let s = if r.p(12) { format!("{s}{}", r.pick(&["\"a\\", "'\\", "\"a\\\n", "p{content:\"x\\", "\\", "/*", "/* *", "url(", "p{color:rgb(", "\"", "'a", "@x \"\\", "p{color:red;content:'\\", ";color:#00ff00;content:'\\", ";color:#00ff00;x:\"\\", "color:#0000ff;quotes:'a\\", "p{color:\\", "@x \\", "@media \\\n", "p{x:a \\\n b}", "p{color:red} @y (\\"])) } else { s };
             let mut cfg = Cfg::rich();
             let html;
             let stream;
@@ -200,7 +200,7 @@ impl Prop for C17 {
                     let s = if r.p(40) {
                         let mut d: Vec<String> = (0..1 + r.b(3)).map(|_| gen::decl(r)).collect();
                         if r.p(40) {
-                            d.push(r.pick(&["content:'\\", "x:\"\\", "quotes:'a\\", "x:'a", "x:url(", "x:/*", "color:rgb(1,2", "\\"]).to_string());
+                            d.push(r.pick(&["content:'\\", "x:\"\\", "quotes:'a\\", "x:'a", "x:url(", "x:/*", "color:rgb(1,2", "\\", "x:\\", "x:a \\\n", "color:\\"]).to_string());
                         }
                         d.join(";")
                     } else {
